@@ -40,6 +40,20 @@ theorem loopBodyErr_of_ok {t : Ty} (h : loopBodyOK t = true) : loopBodyErr t = [
 theorem isSome_eq_false_iff {α} {o : Option α} : o.isSome = false ↔ o = none := by
   cases o <;> simp
 
+/-- the base of a `spawn` is analysed like the identifier it is -/
+theorem checkExpr_ident (Γ : Ctx) (s : Bool) (name : String) :
+    checkExpr Γ s (.ident name) = wrap s (identRes Γ name) := by
+  simp only [checkExpr, identRes]
+
+theorem spawnTargetErr_nil {Γ : Ctx} {name : String} (h : spawnTargetErr Γ name = []) : lookupTy name Γ.vars = none := by
+  unfold spawnTargetErr at h
+  cases hl : lookupTy name Γ.vars with
+  | none => rfl
+  | some t => simp [hl] at h
+
+theorem spawnTargetErr_of_none {Γ : Ctx} {name : String} (h : lookupTy name Γ.vars = none) : spawnTargetErr Γ name = [] := by
+  simp [spawnTargetErr, h]
+
 theorem letVarTy_sound {ann : Option PTy} {t : Ty} (h : (letVarTy ann t).1 = []) : LetTy ann t (letVarTy ann t).2 := by
   cases ann with
   | none =>
